@@ -278,21 +278,18 @@ Proof.
     rewrite Hw. reflexivity.
 Qed.
 
-(* ---------- memory batch: writeMap is the last-wins view of the write log ---------- *)
+(* ---------- memory batch: point-write index + range list = last-wins view of the write log ---------- *)
 Definition conv (w : wop) : kvd :=
   match w with
-  | WPut k v => {| kv_key := k; kv_val := v; kv_del := false |}
-  | WDel k => {| kv_key := k; kv_val := []; kv_del := true |}
-  | WDelRange a _ => {| kv_key := a; kv_val := []; kv_del := true |}   (* never used: ranges excluded *)
+  | WPut k v => {| kv_key := k; kv_val := v; kv_del := false; kv_range := false; kv_end := [] |}
+  | WDel k => {| kv_key := k; kv_val := []; kv_del := true; kv_range := false; kv_end := [] |}
+  | WDelRange a e => {| kv_key := a; kv_val := []; kv_del := true; kv_range := true; kv_end := e |}
   end.
 
-Definition norange (ws : list wop) : Prop := Forall (fun w => wop_is_range w = false) ws.
-
-Lemma m_replay_conv ws : forall d, norange ws -> m_replay (map conv ws) d = replay ws d.
+Lemma m_replay_conv ws : forall d, m_replay (map conv ws) d = replay ws d.
 Proof.
-  unfold m_replay, replay. induction ws as [|w ws IH]; intros d H; cbn; auto.
-  inversion H; subst. rewrite IH by auto. f_equal.
-  destruct w; cbn in *; auto; discriminate.
+  unfold m_replay, replay. induction ws as [|w ws IH]; intros d; cbn; auto.
+  rewrite IH. f_equal. destruct w; reflexivity.
 Qed.
 
 Lemma wm_get_put m k x k' : wm_get (wm_put m k x) k' = if keqb k' k then Some x else wm_get m k'.
@@ -307,37 +304,114 @@ Proof.
       apply keqb_eq in E2. subst. rewrite kcmp_refl in E. discriminate.
 Qed.
 
-(* reading through the batch = reading the overlay the batch would commit *)
-Definition wm_ok (b : mbatch) : Prop :=
-  forall d k, sorted d -> mb_get b d k = s_get (m_replay (mb_writes b) d) k.
-
 Lemma m_replay_sorted ws : forall d, sorted d -> sorted (m_replay ws d).
 Proof.
   unfold m_replay. induction ws as [|w ws IH]; intros d H; cbn; auto.
-  apply IH. unfold m_apply. destruct (kv_del w); auto using s_put_sorted, s_del_sorted.
+  apply IH. unfold m_apply. destruct (kv_range w); [apply filter_sorted; auto|].
+  destruct (kv_del w); auto using s_put_sorted, s_del_sorted.
 Qed.
 
-Lemma wm_ok_empty : wm_ok mb_empty.
-Proof. intros d k _. reflexivity. Qed.
+(* what the write log says about a key: the verdict of the last write that affects it *)
+Definition affects (w : kvd) (k : key) : bool :=
+  if kv_range w then in_range (kv_key w) (kv_end w) k else keqb k (kv_key w).
+Definition verdict (w : kvd) : option val :=
+  if kv_range w then None else if kv_del w then None else Some (kv_val w).
+Fixpoint last_aff (rws : list kvd) (k : key) : option (option val) :=   (* rws: newest first *)
+  match rws with
+  | [] => None
+  | w :: r => if affects w k then Some (verdict w) else last_aff r k
+  end.
 
-Lemma wm_ok_put b k v : wm_ok b -> wm_ok (mb_put b k v).
+Lemma replay_get ws : forall d k, sorted d ->
+  s_get (m_replay ws d) k = match last_aff (rev ws) k with Some r => r | None => s_get d k end.
 Proof.
-  intros H d k' Hd. unfold mb_get, mb_put; cbn. rewrite wm_get_put.
-  unfold m_replay. rewrite fold_left_app. cbn. unfold m_apply at 1. cbn.
-  rewrite s_get_put. destruct (keqb k' k); auto. apply (H d k' Hd).
+  induction ws as [|w ws IH] using rev_ind; intros d k Hd; [reflexivity|].
+  unfold m_replay. rewrite fold_left_app, rev_app_distr. cbn [fold_left rev app last_aff].
+  fold (m_replay ws d). pose proof (m_replay_sorted ws d Hd) as Hs.
+  unfold m_apply, affects, verdict. destruct (kv_range w).
+  - unfold s_delrange. rewrite (s_get_filter (fun x => negb (in_range (kv_key w) (kv_end w) x))) by exact Hs.
+    destruct (in_range (kv_key w) (kv_end w) k); cbn; [reflexivity|]. apply IH. exact Hd.
+  - destruct (kv_del w).
+    + rewrite s_get_del by exact Hs. destruct (keqb k (kv_key w)); [reflexivity|]. apply IH. exact Hd.
+    + rewrite s_get_put. destruct (keqb k (kv_key w)); [reflexivity|]. apply IH. exact Hd.
 Qed.
 
-Lemma wm_ok_delete b k : wm_ok b -> wm_ok (mb_delete b k).
+(* the index structures of the batch agree with the log *)
+Definition binv (b : mbatch) : Prop :=
+  (forall k, mb_lookup b k = last_aff (rev (mb_writes b)) k) /\
+  (forall k i w, wm_get (mb_map b) k = Some (i, w) -> (i < length (mb_writes b))%nat) /\
+  Forall (fun rw => (fst rw < length (mb_writes b))%nat) (mb_ranges b).
+
+Lemma binv_empty : binv mb_empty.
+Proof. repeat split; cbn; auto. intros k i w H. discriminate. Qed.
+
+Lemma covered_later_all_older rs n k :
+  Forall (fun rw : nat * kvd => (fst rw < n)%nat) rs -> covered_later rs (Some n) k = false.
 Proof.
-  intros H d k' Hd. unfold mb_get, mb_delete; cbn. rewrite wm_get_put.
-  unfold m_replay. rewrite fold_left_app. cbn. unfold m_apply at 1. cbn.
-  rewrite s_get_del by (apply m_replay_sorted; auto).
-  destruct (keqb k' k); auto. apply (H d k' Hd).
+  intros H. destruct rs as [|[r w] rs]; [reflexivity|]. cbn [covered_later]. inversion H as [|? ? Hr Hrs]; subst.
+  cbn [fst] in Hr. destruct (Nat.ltb_spec r n); [reflexivity|lia].
+Qed.
+
+Lemma binv_point b k0 (x : kvd) :
+  binv b -> kv_range x = false -> kv_key x = k0 ->
+  binv {| mb_writes := mb_writes b ++ [x]; mb_map := wm_put (mb_map b) k0 (length (mb_writes b), x);
+          mb_ranges := mb_ranges b; mb_size := mb_size b |}.
+Proof.
+  intros (Hl & Hm & Hr) Hx Hk. repeat split; cbn [mb_writes mb_map mb_ranges].
+  - intros k. unfold mb_lookup. cbn [mb_map mb_ranges]. rewrite wm_get_put, rev_app_distr.
+    cbn [rev app last_aff]. unfold affects. rewrite Hx, Hk.
+    destruct (keqb k k0) eqn:E.
+    + rewrite (covered_later_all_older _ _ _ Hr). unfold verdict. rewrite Hx. reflexivity.
+    + specialize (Hl k). unfold mb_lookup in Hl. exact Hl.
+  - intros k i w H. rewrite wm_get_put in H. rewrite app_length. cbn.
+    destruct (keqb k k0); [injection H as <- _; lia | apply Hm in H; lia].
+  - rewrite app_length. cbn. eapply Forall_impl; [|exact Hr]. intros a Ha. cbn in *. lia.
+Qed.
+
+Lemma binv_size b n : binv b ->
+  binv {| mb_writes := mb_writes b; mb_map := mb_map b; mb_ranges := mb_ranges b; mb_size := n |}.
+Proof. intros H. exact H. Qed.
+
+Lemma binv_put b k v : binv b -> binv (mb_put b k v).
+Proof. intros H. unfold mb_put. apply (binv_point b k _ H); reflexivity. Qed.
+
+Lemma binv_delete b k : binv b -> binv (mb_delete b k).
+Proof. intros H. unfold mb_delete. apply (binv_point b k _ H); reflexivity. Qed.
+
+Lemma binv_delrange b a e : binv b -> binv (mb_delrange b a e).
+Proof.
+  intros (Hl & Hm & Hr). unfold mb_delrange. repeat split; cbn [mb_writes mb_map mb_ranges].
+  - intros k. unfold mb_lookup. cbn [mb_map mb_ranges covered_later]. rewrite rev_app_distr.
+    cbn [rev app last_aff]. unfold affects, verdict. cbn [kv_range kv_key kv_end].
+    assert (Hidx : (match match wm_get (mb_map b) k with Some (i, _) => Some i | None => None end with
+                    | Some i => Nat.ltb (length (mb_writes b)) i | None => false end) = false).
+    { destruct (wm_get (mb_map b) k) as [[i w]|] eqn:E; [|reflexivity].
+      apply Hm in E. destruct (Nat.ltb_spec (length (mb_writes b)) i); [lia|reflexivity]. }
+    rewrite Hidx. destruct (in_range a e k); [reflexivity|].
+    specialize (Hl k). unfold mb_lookup in Hl. exact Hl.
+  - intros k i w H. rewrite app_length. cbn. apply Hm in H. lia.
+  - rewrite app_length. cbn. constructor; [cbn; lia|].
+    eapply Forall_impl; [|exact Hr]. intros x Hx. cbn in *. lia.
+Qed.
+
+Lemma binv_apply b w : binv b -> binv (mb_apply b w).
+Proof. destruct w; cbn; auto using binv_put, binv_delete, binv_delrange. Qed.
+
+Lemma mb_apply_writes b w : mb_writes (mb_apply b w) = mb_writes b ++ [conv w].
+Proof. destruct w; reflexivity. Qed.
+
+Lemma mb_apply_size b w : mb_size (mb_apply b w) = mb_size b + w_size w.
+Proof. destruct w; cbn; lia. Qed.
+
+(* reading through the batch = reading the overlay the batch would commit *)
+Lemma binv_get b d k : binv b -> sorted d -> mb_get b d k = s_get (m_replay (mb_writes b) d) k.
+Proof.
+  intros (Hl & _ & _) Hd. unfold mb_get. rewrite Hl, (replay_get _ d k Hd). reflexivity.
 Qed.
 
 (* ---------- the simulation ---------- *)
 Definition Rb (sb : sbatch) (mb : mbatch) : Prop :=
-  norange (sb_ws sb) /\ mb_writes mb = map conv (sb_ws sb) /\ wm_ok mb /\ sb_size sb = mb_size mb.
+  mb_writes mb = map conv (sb_ws sb) /\ binv mb /\ sb_size sb = mb_size mb.
 
 Definition cur_rel (n : nat) (c : cursor) (z : Z) (pos : bool) : Prop :=
   match c with
@@ -516,38 +590,22 @@ Proof.
 Qed.
 
 (* ---------- one step of the simulation ---------- *)
-Lemma norange_existsb ws : existsb wop_is_range ws = false -> norange ws.
+Lemma helper_fold ws : forall b, binv b ->
+  let b' := fold_left mb_apply ws b in
+  mb_writes b' = mb_writes b ++ map conv ws /\ binv b'.
 Proof.
-  induction ws as [|w ws IH]; cbn; intros H; [constructor|].
-  apply orb_false_iff in H. destruct H as [H1 H2]. constructor; [exact H1|apply IH; exact H2].
-Qed.
-
-Lemma mb_apply_norange b d w : wop_is_range w = false -> wm_ok b ->
-  mb_writes (mb_apply b d w) = mb_writes b ++ [conv w] /\ wm_ok (mb_apply b d w) /\
-  mb_size (mb_apply b d w) = mb_size b + w_size w.
-Proof.
-  intros Hw Hb. destruct w; cbn in *; try discriminate.
-  - repeat split; auto using wm_ok_put. lia.
-  - repeat split; auto using wm_ok_delete.
-Qed.
-
-Lemma helper_fold d ws : forall b, norange ws -> wm_ok b ->
-  let b' := fold_left (fun b w => mb_apply b d w) ws b in
-  mb_writes b' = mb_writes b ++ map conv ws /\ wm_ok b'.
-Proof.
-  induction ws as [|w ws IH]; intros b Hn Hb; cbn.
+  induction ws as [|w ws IH]; intros b Hb; cbn.
   - rewrite app_nil_r. auto.
-  - inversion Hn as [|? ? Hw0 Hn']; subst. destruct (mb_apply_norange b d w) as (Hw & Hok & _); auto.
-    destruct (IH (mb_apply b d w) Hn' Hok) as [G1 G2]. cbv zeta in G1, G2.
-    rewrite G1, Hw, <- app_assoc. auto.
+  - destruct (IH (mb_apply b w) (binv_apply b w Hb)) as [G1 G2]. cbv zeta in G1, G2.
+    rewrite G1, mb_apply_writes, <- app_assoc. auto.
 Qed.
 
 Lemma Rb_replay sb mb d : Rb sb mb -> m_replay (mb_writes mb) d = replay (sb_ws sb) d.
-Proof. intros (Hn & Hw & _). rewrite Hw. apply m_replay_conv. exact Hn. Qed.
+Proof. intros (Hw & _). rewrite Hw. apply m_replay_conv. Qed.
 
 Lemma Rb_get sb mb d k : Rb sb mb -> sorted d -> mb_get mb d k = s_get (replay (sb_ws sb) d) k.
 Proof.
-  intros H Hd. rewrite <- (Rb_replay sb mb d H). destruct H as (_ & _ & Hok & _). apply Hok. exact Hd.
+  intros H Hd. rewrite <- (Rb_replay sb mb d H). destruct H as (_ & Hb & _). apply binv_get; auto.
 Qed.
 
 Lemma src_store_sim st mt s : R st mt ->
@@ -578,19 +636,18 @@ Proof.
   - rewrite Hdb. auto.
   - (* NewBatch *) cbn. rewrite (Forall2_length' _ _ _ Hb). split; [|reflexivity].
     constructor; cbn; auto. apply Forall2_snoc; auto. cbn.
-    repeat split; auto using wm_ok_empty. constructor.
+    split; [reflexivity|]. split; [exact binv_empty|reflexivity].
   - (* BW *)
     pose proof (Forall2_lookup Rb _ _ h Hb) as Hl.
     destruct (lookup (s_batches st) h) as [sb|]; [|discriminate].
     destruct (lookup (m_batches mt) h) as [mb|]; [|contradiction].
-    destruct (wop_is_range w) eqn:Hw; [discriminate|]. cbn. split; [|reflexivity].
+    cbn. split; [|reflexivity].
     constructor; cbn; auto. apply Forall2_set_nth; auto. cbn.
-    destruct Hl as (Hn & Hwr & Hok & Hsz).
-    destruct (mb_apply_norange mb (m_db mt) w Hw Hok) as (H1 & H2 & H3).
-    repeat split; cbn; auto.
-    + apply Forall_app. split; auto.
-    + rewrite H1, Hwr, map_app. reflexivity.
-    + rewrite H3, Hsz. reflexivity.
+    destruct Hl as (Hwr & Hbi & Hsz).
+    split; [|split].
+    + rewrite mb_apply_writes, Hwr. cbn. rewrite map_app. reflexivity.
+    + apply (binv_apply mb w Hbi).
+    + cbn. rewrite mb_apply_size, Hsz. reflexivity.
   - (* BGet *)
     pose proof (Forall2_lookup Rb _ _ h Hb) as Hl. cbn [src_store].
     destruct (lookup (s_batches st) h) as [sb|]; [|discriminate].
@@ -607,7 +664,7 @@ Proof.
     pose proof (Forall2_lookup Rb _ _ h Hb) as Hl.
     destruct (lookup (s_batches st) h) as [sb|]; [|discriminate].
     destruct (lookup (m_batches mt) h) as [mb|]; [|contradiction].
-    cbn. split; auto. destruct Hl as (_ & _ & _ & ->). reflexivity.
+    cbn. split; auto. destruct Hl as (_ & _ & ->). reflexivity.
   - (* BWrite *)
     pose proof (Forall2_lookup Rb _ _ h Hb) as Hl.
     destruct (lookup (s_batches st) h) as [sb|]; [|discriminate].
@@ -650,16 +707,15 @@ Proof.
     destruct (lookup (m_iters mt) h) as [mi|]; [|contradiction].
     cbn. split; auto. constructor; cbn; auto. apply Forall2_set_nth; cbn; auto.
   - (* Helper *)
-    destruct (existsb wop_is_range ws) eqn:Hn; [discriminate|]. apply norange_existsb in Hn.
-    destruct (helper_fold (m_db mt) ws mb_empty Hn wm_ok_empty) as [H1 H2]. cbv zeta in H1, H2.
+    destruct (helper_fold ws mb_empty binv_empty) as [H1 H2]. cbv zeta in H1, H2.
     cbn [mb_writes mb_empty app] in H1.
-    set (b := fold_left (fun b w => mb_apply b (m_db mt) w) ws mb_empty) in *.
+    set (b := fold_left mb_apply ws mb_empty) in *.
     assert (Hrep : m_replay (mb_writes b) (m_db mt) = replay ws (s_db st)).
-    { rewrite H1, <- Hdb. apply m_replay_conv. exact Hn. }
+    { rewrite H1, <- Hdb. apply m_replay_conv. }
     split.
     + destruct fail; auto. constructor; cbn; auto. apply replay_sorted; auto.
     + destruct fail; auto. destruct rd as [k|]; auto. destruct indexed; auto.
-      rewrite (H2 (m_db mt) k) by (rewrite <- Hdb; auto). rewrite Hrep. reflexivity.
+      rewrite (binv_get b (m_db mt) k H2) by (rewrite <- Hdb; auto). rewrite Hrep. reflexivity.
 Qed.
 
 Lemma R_init : R s_init m_init.
